@@ -376,6 +376,8 @@ def run(chk):
     else:
         chk.bad('C06-tower', 'Context::cheap_subtype_of', 'flip', 'cheap_subtype_of(lhs, rhs) is not cheap_supertype_of(rhs, lhs)', FILE, sub['line'])
     union_rule(chk, fx)
+    from sa.kinds import arity
+    arity.rule(chk, fx, 'C06-arity', ('refl',))
     return ('The arms of Context::cheap_supertype_of are evaluated in order (resolved variant patterns, guards through the variant set of '
             'Type::is_mono_value_class) on every ordered pair of the six numeric classes and on Obj/Never against every built-in unit type. '
             'Decides the tower/top/bottom clauses only; reflexivity/transitivity over structural types are not decided.'), {'exhaustive': True}
